@@ -43,6 +43,7 @@ def gen(ctx):
 def run(ctx):
     cases = gen(ctx)
     obs = ctx.run_impl(cases, 'history', timeout=2400)
+    raglib.locale_independent(ctx, cases, obs, 'history', 'ragged-history')
     terms, keep = [], []
     for case, steps in zip(cases, obs):
         key0 = p04.key_of(case)
